@@ -143,6 +143,16 @@ PROPS = {
                    "(reverse entries, shared data cell, no dangling edge, sortedness, iteration exactly once).",
         level_note="Sampling over seeds. Items are cautious at operator level (all touched nodes acquired first); removed nodes are never re-added.",
         **tiers(6000, 120, 150000, 1500)),
+    "C11": dict(
+        jobs=[dict(harness="c11_lcgraphs", variant="a", weight=2), dict(harness="c11_lcgraphs", variant="n", weight=1)],
+        components=comp(extra_stub=["file system: real files in a per-run scratch directory"]), expected_probes=["edges_checked"],
+        design_ref="3.11",
+        level_text="Seeded exploration of the parallel graph builders: generated graphs (empty, isolated nodes, self loops, parallel edges, hubs, last node with/without edges) written by the harness's "
+                   "own .gr writer (v1/v2, void/uint32/uint64 data) and loaded with 1-16 threads into LC_CSR (3 variants + array constructor), LC_CSR_CSC (constructIncomingEdges), LC_Linear, LC_InlineEdge, "
+                   "LC_Morph; then findEdge, sortAllEdgesByDst, findEdgeSortedByDst, sortEdgesByEdgeData, transpose, per-thread local ranges. Oracle: exact comparison with the generator's edge list "
+                   "(file order for CSR layouts, unique edge ids for layouts with free node order), views are permutations grouped correctly, local ranges partition [0,n).",
+        level_note="Sampling over seeds. Sequential lookups ride along as oracle reads; what the simulator adds are the interleavings of the per-thread construction, the fromFileInterleaved condvar hand-shake and the atomic slot claiming in transpose / in-edge construction.",
+        **tiers(4000, 150, 100000, 1800)),
 }
 
 ALL_IDS = ["C%02d" % i for i in range(1, 21)]
